@@ -395,6 +395,25 @@ Definition mon_C08 (c : cfg) (pre : osnap) (o : op) (post : osnap) (leave_inc : 
           end
       | _ => 0%N
       end in
+    let c1 := if negb (N.eqb c1 0) then c1 else
+      (* an accepted departure / death is remembered at the incarnation it carried: later alive
+         messages no newer than it must find it in the record *)
+      match claim_of c o with
+      | Some (CDead i n f) =>
+          match ofind n pre with
+          | Some r =>
+              let held := or_rec r in
+              if negb (dead_or_left (rst held)) && (rinc held <=? i)%N && negb (N.eqb n (self c) && negb (o_leaving pre)) then
+                match ofind n post with
+                | Some r' =>
+                    if N.eqb (rinc (or_rec r')) i && st_eqb (rst (or_rec r')) (if N.eqb n f || N.eqb n (self c) then Left else Dead) then 0%N else 147%N
+                | None => 147%N
+                end
+              else 0%N
+          | None => 0%N
+          end
+      | _ => 0%N
+      end in
     if negb (N.eqb c1 0) then c1
     else
       (* left is absorbing for every record: alive <= departure, suspect, dead change nothing (covered by C01 110);
@@ -489,8 +508,15 @@ Definition mon_C09 (c : cfg) (pre : osnap) (o : op) (post : osnap) : N :=
 
 Definition first_nz (l : list N) : N := fold_right (fun x acc => if N.eqb x 0 then acc else x) 0%N l.
 
+(* which property a monitor code belongs to: 110.. C01, 120.. C02, 130.. C07, 140.. C08, 150.. C18, 160.. C06, 170.. C09.
+   [sel] = 0 evaluates every monitor; otherwise only the selected property's monitor decides, so that
+   one property's violation cannot hide another's *)
+Definition code_sel (sel code : N) : N :=
+  if N.eqb sel 0 then code
+  else if N.eqb (code / 10) sel then code else 0%N.
+
 (* walk the observed trace *)
-Fixpoint monitor_from (c : cfg) (i : N) (pre : osnap) (view : list (N * (N * N))) (linc_leave : option N)
+Fixpoint monitor_from (sel : N) (c : cfg) (i : N) (pre : osnap) (view : list (N * (N * N))) (linc_leave : option N)
          (ops : list op) (obs : list osnap) : verdict :=
   match ops, obs with
   | o :: ops', post :: obs' =>
@@ -503,15 +529,16 @@ Fixpoint monitor_from (c : cfg) (i : N) (pre : osnap) (view : list (N * (N * N))
         let c7 := if o_conc post then 132%N
                   else if negb gok then 131%N
                   else if negb (mem_eqb (sort_by fst view') (o_members post)) then 130%N else 0%N in
-        let code := first_nz [mon_C01 c pre o post; mon_C02 c pre o post; c7; mon_C08 c pre o post linc_leave;
-                              mon_C18 c pre o post; mon_C06 c pre o post; mon_C09 c pre o post] in
+        let code := first_nz (map (code_sel sel)
+                             [mon_C01 c pre o post; mon_C02 c pre o post; c7; mon_C08 c pre o post linc_leave;
+                              mon_C18 c pre o post; mon_C06 c pre o post; mon_C09 c pre o post]) in
         if negb (N.eqb code 0) then mkV code i
         else
           let ll := match o with
                     | OLeaveBegin => if o_leaving pre then linc_leave
                                      else match ofind (self c) pre with Some r => Some (rinc (or_rec r)) | None => None end
                     | _ => linc_leave end in
-          monitor_from c (i + 1) post view' ll ops' obs'
+          monitor_from sel c (i + 1) post view' ll ops' obs'
   | _, _ => vok
   end.
 
@@ -526,7 +553,7 @@ Fixpoint compare_from (c : cfg) (i : N) (s : nstate) (ops : list op) (obs : list
   | _, _ => vok
   end.
 
-Definition check_case (cs : list int * (list (list int) * list (list int))) : verdict :=
+Definition check_case (sel : N) (cs : list int * (list (list int) * list (list int))) : verdict :=
   match dec_cfg (fst cs), dec_list dec_op (fst (snd cs)), dec_list dec_obs (snd (snd cs)) with
   | Some (c, bm), Some ops, Some (ob0 :: obs) =>
       (* boot *)
@@ -534,9 +561,9 @@ Definition check_case (cs : list int * (list (list int) * list (list int))) : ve
       let ev0 := [EvJoin (self c) (self_addr c) bm] in
       let d0 := snap_diff (snap_of s0 ev0) ob0 in
       let '(_, view0) := replay (o_evs ob0) [] in
-      if negb (mem_eqb (sort_by fst view0) (o_members ob0)) then mkV 130 0
+      if negb (mem_eqb (sort_by fst view0) (o_members ob0)) && (N.eqb sel 0 || N.eqb sel 13) then mkV 130 0
       else
-        let v := monitor_from c 1 ob0 view0 None ops obs in
+        let v := monitor_from sel c 1 ob0 view0 None ops obs in
         if negb (N.eqb (vcode v) 0) then v
         else if negb (N.eqb d0 0) then mkV d0 0
         else compare_from c 1 s0 ops obs
